@@ -9,7 +9,7 @@ Oracle (independent of the Lean model): a Python abstract machine on (t0, Δ, n,
 integers; the implementation's samples, attributes, lookups, rejections and the originals of
 copies are judged against it step by step; the first failing step of a history is reported.
 """
-import itertools, operator
+import itertools, operator, re
 import numpy as np
 from common import Case, Failure, f2x, err_kind
 
@@ -229,7 +229,7 @@ def impl_string(init, ops):
 
 def line_of(init, ops):
     unit, t0, dt, n = init
-    return 'C17 run %s %d %d %d %s' % (unit, t0, dt, n, ';'.join(tok_op(o) for o in ops) if ops else '-')
+    return 'C17 both %s %d %d %d %s' % (unit, t0, dt, n, ';'.join(tok_op(o) for o in ops) if ops else '-')
 
 
 # ------------------------------------------------------------------ generators
@@ -338,8 +338,23 @@ def build_case(rng, init, kinds):
 def make_case(init, ops):
     impl, steps, ab = impl_string(init, ops)
     clause = 'history/' + '.'.join(o[0] for o in ops) if len(ops) <= 2 else 'history/depth%d' % len(ops)
-    return Case(line_of(init, ops), impl, clause, meta={'init': list(init), 'ops': [list(o) for o in ops]},
+    return Case(line_of(init, ops), impl, clause, cmp=cmp_fixed, meta={'init': list(init), 'ops': [list(o) for o in ops]},
                 nontrivial=bool(ops))
+
+
+def cmp_fixed(impl, model):
+    """the driver answers `<trace of the repaired model> ## <trace of the unrepaired model>`; the
+    implementation has to follow the repaired one"""
+    return norm_outcomes(impl) == norm_outcomes(model.split(' ## ')[0])
+
+
+_OUTCOME = re.compile(r'(^ok |;)(?!ok\|)[A-Za-z:]+\|')
+
+
+def norm_outcomes(s):
+    """the property speaks of operations being *rejected*; which exception class does it is not
+    compared (e.g. today's `/= 0` raises AttributeError where the repaired code raises ValueError)"""
+    return _OUTCOME.sub(lambda m: m.group(1) + 'rejected|', s)
 
 
 def cases(rng, tier, seed):
@@ -441,7 +456,7 @@ def judge(init, ops, steps=None):
                 # the abstract trace continues from the unshifted state; stop judging this history here
                 sym = judge_axis(parse_axis(axes[0]), a)
                 if sym:
-                    return ('%s/%s' % (name + '-len1', sym[0]), describe(init, ops, i, oc, axes, a, sym), i)
+                    return ('%s/%s' % (name + '-len1', sym_key(sym, name)), describe(init, ops, i, oc, axes, a, sym), i)
                 return None
         elif acc and not accepted:
             sym.append('raises-' + oc)
@@ -450,19 +465,53 @@ def judge(init, ops, steps=None):
         if not sym:
             sym = judge_axis(parse_axis(axes[0]), a)
             if not accepted and sym:
-                sym = ['changed-on-reject:' + sym[0]] + sym[1:]
-        # originals of copies must stay as they were when the copy was taken
+                sym = ['changed-on-reject'] + sym
+        # originals of copies must stay as they were when the copy was taken (judged first: an
+        # operation on a copy that reaches the original is its own defect)
         if op[0] in ('cp', 'cv') and oc == 'ok' and len(axes) > 1:
             kept_obs.insert(0, prev_axes[0] if prev_axes else None)
-        if not sym:
-            for j, (now, then) in enumerate(zip(axes[1:], kept_obs)):
-                if then is not None and now != then:
-                    sym.append('original-changed')
-                    break
+        for j, (now, then) in enumerate(zip(axes[1:], kept_obs)):
+            if then is not None and now != then:
+                sym.insert(0, 'original-changed')
+                break
         if sym:
-            return ('%s/%s' % (name, sym[0]), describe(init, ops, i, oc, axes, a, sym), i)
+            return ('%s/%s' % (name, sym_key(sym, name)), describe(init, ops, i, oc, axes, a, sym), i)
         prev_axes = axes
     return None
+
+
+# symptom families: one recorded defect shows as different subsets of one family depending on the
+# operand (a ramp starting at 0 leaves t0 right, ...); a symptom outside the family of the
+# operation is spelled out in the key, so that a different failure has a different key
+FAMILY = {
+    'iadd-scalar': [('t0-stale', {'t0'})],
+    'isub-scalar': [('t0-stale', {'t0'})],
+    'iadd-ramp': [('attrs-stale', {'t0', 'duration'})],
+    'isub-ramp': [('interval-sign', {'t0', 'interval', 'duration', 'rate'}), ('interval-sign-zero', {'raises-ZeroDivisionError'})],
+    'imul': [('attrs-stale', {'t0', 'duration'})],
+    'imul-zero': [('changed-on-reject', {'changed-on-reject', 'samples', 'interval'})],
+    'nonuniform-wrong-length': [('changed-on-reject', {'changed-on-reject', 'interval', 'rate'})],
+    'slice': [('attrs-inherited', {'t0', 'interval', 'duration', 'rate'})],
+    'convert': [('t0-dropped', {'samples', 't0'})],
+}
+
+
+def sym_key(sym, name=''):
+    """stable classifier of a symptom list ('lookup' is a consequence of wrong attributes and only
+    named when it is the sole symptom)"""
+    core = [x for x in sym if x != 'lookup'] or list(sym)
+    parts = []
+    if 'original-changed' in core:
+        parts.append('original-changed')
+        core = [x for x in core if x != 'original-changed']
+    if core:
+        for label, fam in FAMILY.get(name, []):
+            if set(core) <= fam:
+                parts.append(label)
+                break
+        else:
+            parts.append('+'.join(core))
+    return '+'.join(parts)
 
 
 def describe(init, ops, i, oc, axes, a, sym):
@@ -479,11 +528,10 @@ def oracle(rng, tier, seed, focus, cases=None):
         if r:
             key, what, i = r
             fails.append(Failure(key, what, {'init': list(init), 'ops': [list(o) for o in ops[:i]]}, case=c))
-    return fails, {'judged': n, 'failed': len(fails), 'distinct_keys': len({f.key for f in fails}), 'focus': len(focus)}
-
-
-def detuple(o):
-    return tuple(detuple(x) if isinstance(x, list) and i != 2 else x for i, x in enumerate(o)) if isinstance(o, (list, tuple)) else o
+    cur = sum(1 for c in (cases or []) if c.model and norm_outcomes(c.impl) == norm_outcomes(c.model.split(' ## ')[-1]))
+    fix = sum(1 for c in (cases or []) if c.model and cmp_fixed(c.impl, c.model))
+    return fails, {'judged': n, 'failed': len(fails), 'distinct_keys': len({f.key for f in fails}), 'focus': len(focus),
+                   'histories_matching_repaired_model': fix, 'histories_matching_unrepaired_model': cur}
 
 
 def replay(d):
